@@ -269,6 +269,12 @@ def _case(arg) -> Dict[str, Any]:
     per_rank = gen.gen_trace_set(seed, n_ranks=1, **kw)
     if len(arg) > 3:
         per_rank = {0: _repetitive_events(*arg[3])}
+    RK = 0
+    if seed % 5 == 3 and len(arg) <= 3:
+        # two ranks, the SECOND one (a larger file than the first) is analysed; loaded through the default entry point (worker pool)
+        big = gen.gen_trace_set(seed + 7, n_ranks=1, **{**kw, "n_top": 6, "steps": max(1, kw.get("steps", 1))})[0]
+        per_rank = {0: per_rank[0], 1: big}
+        RK = 1
     ops = ["aten::mm", "aten::", "autograd", "aten::linear"]
     if seed % 4 == 1 and len(arg) <= 3:
         # operator names as the profiler writes them for Python frames and modules: parentheses, dots, brackets, '+', '*' are ordinary characters of a name
@@ -292,14 +298,21 @@ def _case(arg) -> Dict[str, Any]:
             from contracts.C03 import in_known_class_d4
             from hta.common.trace_call_graph import CallGraph
 
-            cg = CallGraph(ta.t, ranks=[0])
-            df = cg.trace_data.get_trace(0)
+            cg = CallGraph(ta.t, ranks=[RK])
+            df = cg.trace_data.get_trace(RK)
             stab = ta.t.symbol_table.get_sym_table()
             def num(x):
                 return int(x) if float(x) == int(x) else float(x)  # quarter fractions are exact in binary
 
             rows = {int(i): dict(ts=num(ts), dur=num(du), stream=int(s), parent=int(p), depth=int(dp), name=stab[int(nm)], tid=int(tid), pid=int(pid), corr=int(c))
                     for i, ts, du, s, p, dp, nm, tid, pid, c in zip(df["index"], df["ts"], df["dur"], df["stream"], df["parent"], df["depth"], df["name"], df["tid"], df["pid"], df["correlation"])}
+            # the analysed rank holds the events of ITS file (row id = position in that file)
+            fnames = {i: e["name"] for i, e in gen.complete_events(per_rank[RK])}
+            wrong = [i for i, rw in rows.items() if fnames.get(i) != rw["name"]]
+            if wrong:
+                fails.append({"what": "rank_frame_holds_the_events_of_its_own_file", "input": {"seed": seed, "rank": RK, "events": per_rank},
+                              "observed": {"row": wrong[0], "name": rows[wrong[0]]["name"]}, "expected": fnames.get(wrong[0])})
+                return {"n_checks": 1, "fails": fails, "nontrivial": True}
             by_thread: Dict[Any, List[Any]] = {}
             for i, rw in rows.items():
                 if rw["stream"] < 0:
@@ -330,10 +343,10 @@ def _case(arg) -> Dict[str, Any]:
                 return list(under.get(i, []))
 
             for op in ops:
-                inp = {"seed": seed, "operator_name": op, "min_pattern_len": min_len, "top_k": top_k, "events": per_rank}
+                inp = {"seed": seed, "operator_name": op, "min_pattern_len": min_len, "top_k": top_k, "rank": RK, "events": per_rank}
                 try:
                     res = rt.lib(fails, "get_frequent_cuda_kernel_sequences", inp, ta.get_frequent_cuda_kernel_sequences, operator_name=op, output_dir=outdir,
-                                 min_pattern_len=min_len, rank=0, top_k=top_k, visualize=False)
+                                 min_pattern_len=min_len, rank=RK, top_k=top_k, visualize=False)
                 except rt.LibFailure:
                     continue
                 inst = [i for i, rw in rows.items() if op in rw["name"]]
